@@ -83,6 +83,8 @@ Configs ==
   (* _self: a macro called above its definition, and a macro of an extending template called from its blocks (the parent defines
      a macro of the same name with another body) *)
   \cup { [form |-> "self", k |-> k, na |-> k, use |-> u, nest |-> "none", special |-> sp, host |-> "entry"] : k \in 0..2, u \in {"print", "set2"}, sp \in {"before", "childmacro"} }
+  (* the same macro from-imported under two names in one tag: both names are bound *)
+  \cup { [form |-> "from", k |-> 1, na |-> 1, use |-> "print", nest |-> "none", special |-> "fromtwice", host |-> "entry"] }
 
 (* a second library whose macros have the same names and different bodies: importing it under an alias or name that is
    already bound replaces the binding *)
@@ -104,6 +106,8 @@ Program(c) ==
            ForS("", "v", ArrE(<<StrE("lib"), StrE("lib2"), StrE("lib")>>), NoE,
                 <<ImportS(NameE("v"), "L"), FromS(NameE("v"), << <<"m1", "q">> >>), PrintS(AttrCall(NameE("L"), "m1", <<IntE(1)>>)), PrintS(CallE("q", <<IntE(2)>>))>>, <<>>, FALSE),
            Text("$")>>
+    [] c.special = "fromtwice" -> <<FromS(StrE("lib"), << <<"m1", "xa">>, <<"m1", "xb">>, <<"m2", "m2">> >>), Text("^"),
+                                    PrintS(CallE("xa", <<IntE(11)>>)), Text("|"), PrintS(CallE("xb", <<IntE(22)>>)), Text("$")>>
     [] c.special = "before" -> <<Text("^")>> \o UseOf(c, CallM(c.form, MName(c.k), Args(c.na))) \o <<Text("$")>> \o Defs("t")
     [] c.special = "childmacro" -> <<ExtendsS(StrE("cbase"))>> \o Defs("t") \o <<BlockS("body", UseOf(c, CallM(c.form, MName(c.k), Args(c.na))))>>
     [] c.special = "outer" -> Prelude(c.form) \o <<Text("^")>> \o UseOf(c, CallM(c.form, "outer", Args(c.na))) \o <<Text("$")>>
@@ -134,6 +138,7 @@ Entry(c) == IF c.host = "entry" THEN "t" ELSE "top"
 Expected(c) ==
   CASE c.special = "nested" -> "^i1(1,)i1(2,)b2(3,4,)b2(5,,)f3()f3()$"
     [] c.special = "rebind" -> "^m1(11,)n1(11,)|m1(11,)n1(11,)|m1(1,)m1(2,)n1(1,)n1(2,)m1(1,)m1(2,)$"
+    [] c.special = "fromtwice" -> "^m1(11,)|m1(22,)$"
     [] c.special \in {"before", "childmacro"} -> "^" \o UseExp(c, Result(c.k, c.na)) \o "$"
     [] c.special = "outer" -> "^" \o UseExp(c, "<m1(" \o (IF c.na >= 1 THEN "11" ELSE "") \o "+,)>") \o "$"
     [] c.special = "unknown" -> "^"
@@ -148,7 +153,7 @@ Next == GenNext(v_lvl, v_idx, Picked, 32)
 Cur == Cases[v_idx]
 Ref == Execute(Templates(Cur), Entry(Cur), EmptyScope)
 Out == v_lvl < 2 \/ Emit(RenderVec("C11-" \o ToString(v_idx), Cur.form, Templates(Cur), Entry(Cur), EmptyScope,
-                                   [nt |-> Cur.k # Cur.na \/ Cur.special = "outer" \/ Cur.use = "macroarg"]))
+                                   [nt |-> Cur.k # Cur.na \/ Cur.special = "outer" \/ Cur.use = "macroarg", special |-> Cur.special]))
 
 --------------------------------------------------------------------------
 (* positional binding, missing arguments empty, surplus ignored; the call's value is the rendered body *)
